@@ -1,0 +1,16 @@
+//go:build verif
+
+package net
+
+import "sync/atomic"
+
+// verifYieldFn, when set by a verification harness, is called at named points
+// of the per-peer sender bookkeeping so that the harness can decide what runs
+// between two steps there.
+var verifYieldFn atomic.Pointer[func(point string)]
+
+func verifYield(point string) {
+	if f := verifYieldFn.Load(); f != nil {
+		(*f)(point)
+	}
+}
